@@ -604,7 +604,21 @@ def _check_anss16_size_guard(repo, r5, s, search):
     """Between the size-table hit and the level-table lookup, no early return may fire for a storable size
     1 <= n <= 2^T with T + 1 = len(HT_L_list).  The straight-line arithmetic is evaluated on the finite boundary set."""
     import math
-    body = search.node.body
+    import copy as _copy
+
+    def _linear(stmts):
+        # `if g: return ... else: REST` reads `if g: return ...; REST`
+        out = []
+        for st in stmts:
+            if isinstance(st, ast.If) and st.orelse and st.body and isinstance(st.body[-1], (ast.Return, ast.Raise)):
+                g = _copy.copy(st)
+                g.orelse = []
+                out.append(g)
+                out += _linear(st.orelse)
+            else:
+                out.append(st)
+        return out
+    body = _linear(search.node.body)
     lst_names = {t.id for st in ast.walk(search.node) if isinstance(st, ast.Assign) for t in st.targets if isinstance(t, ast.Name)
                  and isinstance(st.value, ast.Attribute) and st.value.attr == "HT_L_list"}
     for st in ast.walk(search.node):
